@@ -424,6 +424,10 @@ impl FixtureDatabase {
             return HashSet::new();
         }
         visited.insert(canonical_path.clone());
+        // A result computed below another file's traversal can be cut short by `visited`
+        // (import cycles); only the traversal root sees the complete set, so only that
+        // result may be cached.
+        let is_traversal_root = visited.len() == 1;
 
         // Get the file content first (needed for cache validation)
         let Some(content) = self.get_file_content(&canonical_path) else {
@@ -448,14 +452,16 @@ impl FixtureDatabase {
         let imported_fixtures = self.compute_imported_fixtures(&canonical_path, &content, visited);
 
         // Store in cache
-        self.imported_fixtures_cache.insert(
-            canonical_path.clone(),
-            (
-                content_hash,
-                current_version,
-                Arc::new(imported_fixtures.clone()),
-            ),
-        );
+        if is_traversal_root {
+            self.imported_fixtures_cache.insert(
+                canonical_path.clone(),
+                (
+                    content_hash,
+                    current_version,
+                    Arc::new(imported_fixtures.clone()),
+                ),
+            );
+        }
 
         info!(
             "Found {} imported fixtures for {:?}: {:?}",
